@@ -123,6 +123,29 @@ theorem size_independent_of_repetitions (h : List Doc) (d : Doc) (a : Shape) (hd
     · have : k = 0 := by omega
       subst this; rfl
 
+/-- **C09, any re-feeding order.** After a history `h`, feeding *any* sequence `r` of documents that
+are already among the sources — in any order, any number of times each, interleaved at will —
+succeeds and never changes which documents the shape admits. (The shape itself may still change
+between steps when different documents alternate; its meaning does not.) -/
+theorem readd_any : ∀ (r h : List Doc) (a : Shape), fromSourcesDoc h = .ok a → (∀ d ∈ r, d ∈ h) →
+    ∃ s, fromSourcesDoc (h ++ r) = .ok s ∧ meaningEq s a
+  | [], h, a, ha, _ => ⟨a, by simpa using ha, meaningEq_refl a⟩
+  | x :: r, h, a, ha, hr => by
+    have hx : x ∈ h := hr x (by simp)
+    obtain ⟨s1, e1, m1, _⟩ := converge h x a hx ha 1
+    have e1' : fromSourcesDoc (h ++ [x]) = .ok s1 := by simpa using e1
+    have hr' : ∀ d ∈ r, d ∈ h ++ [x] := fun d hd => by
+      have := hr d (by simp [hd]); simp [this]
+    obtain ⟨s, e, m⟩ := readd_any r (h ++ [x]) s1 e1' hr'
+    exact ⟨s, by simpa using e, meaningEq_trans m m1⟩
+
+/-- non-vacuity: a two-document history re-fed in alternation -/
+example :
+    let d1 := Doc.arr [.bool true, .bool false]
+    let d2 := Doc.arr [.bool true, .null]
+    (∃ a, fromSourcesDoc [d1, d2] = .ok a) ∧ (∀ d ∈ [d2, d1, d2, d1], d ∈ [d1, d2]) := by
+  refine ⟨⟨_, rfl⟩, by simp⟩
+
 /-- the D7 witness after the repair: `[1,2]` then `[1,"a"]` repeated — stable from the first repetition -/
 example :
     let a := Shape.array (.number false) false
